@@ -208,9 +208,19 @@ class HDeck(Deck):
                         T = c.filltr.motion if c.filltr is not None else (
                             c.trcl.motion if c.trcl is not None else ident)
                         if c.lat:
+                            # frame of the universe in element L (same rule as _locate_lattice): with a FILL
+                            # transformation x = filltr(x_u) + L (L rotated by the lattice TRCL); without one
+                            # the universe moves with the lattice cell, x = trcl(x_u + L)
+                            if c.filltr is not None:
+                                Lm = L @ c.trcl.motion.B if c.trcl is not None else L
+                                frame = c.filltr.motion.then(refsem.Motion(Lm)).then(A)
+                            elif c.trcl is not None:
+                                frame = refsem.Motion(L).then(c.trcl.motion).then(A)
+                            else:
+                                frame = refsem.Motion(L).then(A)
                             for uni in sorted(set(c.array)):
                                 if uni and uni != c.u:
-                                    walk(uni, T.then(refsem.Motion(L)).then(A), depth + 1)
+                                    walk(uni, frame, depth + 1)
                         else:
                             walk(c.fill, T.then(A), depth + 1)
         walk(0, ident, 0)
